@@ -280,6 +280,65 @@ def _lt_eval(e, rel):
     raise ValueError(e)
 
 
+def _helper_mismatch(ps, a, b):
+    """the helper is written with std::mismatch(A.begin(), A.end(), B.begin()): it is a lexicographic comparison of equally long
+    ranges iff it yields false when no mismatch exists and *first < *second at the mismatch. None when the form is another one."""
+    def rng(txt, side):
+        return txt.replace(" ", "") in ("to_array(%s)" % side, side)
+    verdict = None
+    for p in ps:
+        ev = {i: e for i, e in enumerate(p.events, 1)}
+        mms = [i for i, e in ev.items() if e[0].split("<")[0] == "std::mismatch"]
+        if len(mms) != 1:
+            return None
+        m = mms[0]
+        margs = [sx.show(x) for x in ev[m][1]]
+
+        def of(ref, suffix):
+            mm_ = re.match(r"^#(\d+):(\w+)$", ref)
+            if not mm_ or int(mm_.group(1)) not in ev:
+                return None
+            e = ev[int(mm_.group(1))]
+            return sx.show(e[1][0]) if e[0].split("<")[0].split("::")[-1] in suffix and len(e[1]) == 1 else None
+        if len(margs) != 3 or not (rng(of(margs[0], ("begin", "cbegin")) or "", a) and rng(of(margs[1], ("end", "cend")) or "", a)
+                                   and rng(of(margs[2], ("begin", "cbegin")) or "", b)):
+            return (False, "std::mismatch is not called over [begin, end) of the left operand and begin of the right: mismatch(%s)" % ", ".join(margs))
+        first, second = "#%d:mismatch.first" % m, "#%d:mismatch.second" % m
+        at_end, less = None, None
+        for d, v in p.decisions:
+            t = sx.show(d)
+            m1 = re.match(r"^\((.+) (==|!=) (.+)\)$", t)
+            m2 = re.match(r"^\(deref\((.+)\) < deref\((.+)\)\)$", t)
+            if m2:
+                if (m2.group(1), m2.group(2)) != (first, second):
+                    return (False, "at the mismatch the helper compares %s" % t)
+                less = v
+            elif m1:
+                l, r = m1.group(1), m1.group(3)
+                other = r if l == first else l if r == first else None
+                if other is None or not rng(of(other, ("end", "cend")) or "", a):
+                    return None
+                at_end = v if m1.group(2) == "==" else not v
+            else:
+                return None
+        if p.outcome[0] != "return":
+            continue
+        out = sx.show(p.outcome[1]).replace(" ", "")
+        if at_end is None:
+            return None
+        if at_end:
+            if out not in ("0", "false"):
+                return (False, "no element differs (std::mismatch reached the end) but the result is %s" % out)
+        else:
+            if less is None:
+                if out != ("(deref(%s)<deref(%s))" % (first, second)).replace(" ", ""):
+                    return None
+            elif out not in (("true", "1") if less else ("false", "0")):
+                return (False, "at the first difference *first < *second is %s but the result is %s" % (less, out))
+        verdict = (True, "std::mismatch over both ranges: false when none differs, *first < *second at the first difference")
+    return verdict
+
+
 def _helper_lex_ok(db, helper_qn):
     """is the two-argument helper a lexicographic comparison of its arguments' element ranges?  (True, how) | (False, why) | (None, why)"""
     fns = [f for f in db.fns(helper_qn) if len(f.get("params", [])) == 2 and f.get("body") is not None]
@@ -300,6 +359,9 @@ def _helper_lex_ok(db, helper_qn):
         ps = sx.Interp(db, cfg).paths(fn)
     except sx.Unsupported as e:
         return (None, "outside the interpreted fragment: %s" % e)
+    mm = _helper_mismatch(ps, a, b)
+    if mm is not None:
+        return mm
     for p in ps:
         begins = {("#%d:begin" % i): sx.show(e[1][0]) for i, e in enumerate(p.events, 1) if e[0].split("<")[0].endswith("::begin") or e[0].split("<")[0].endswith("::cbegin")}
 
@@ -322,6 +384,8 @@ def _helper_lex_ok(db, helper_qn):
             if not m3:
                 return (None, "decision %s is not an element comparison" % t)
             l, op, r = m3.group(1), m3.group(2), m3.group(3)
+            if not any(is_elem(x, sd, j) for x in (l, r) for sd in (a, b) for j in range(0, 4)):
+                return (None, "decision %s does not compare elements of the operands" % t)
             if not (is_elem(l, a, k) and is_elem(r, b, k)) and not (is_elem(l, b, k) and is_elem(r, a, k) and op != "<"):
                 return (False, "step %d compares %s with %s; a lexicographic comparison compares element %d of the left operand with element %d of the right" % (k, l, r, k, k))
             equal = v if op == "==" else (not v if op == "!=" else None)
@@ -380,7 +444,8 @@ def rule_lt_lex(rep, db):
                                 rep.fail("LT-LEX", key, F.primary_site(fn), F.describe(fn)[:160], why="operator< delegates to %s, which is not a lexicographic comparison: %s" % (hq, how))
                                 continue
                             if okh is None:
-                                rep.note("LT-LEX: helper %s of %s not decided (%s)" % (hq, key, how))
+                                rep.broken("C17 LT-LEX: %s delegates to %s, which is written in a form the check cannot decide (%s)" % (key, hq, how))
+                                continue
                             rep.ok("LT-LEX", key, F.primary_site(fn), F.describe(fn)[:160], how="delegates(%s(a, b)): %s" % (hq.split("::")[-1], how if okh else "helper not decided"))
                             continue
                         rep.ok("LT-LEX", key, F.primary_site(fn), F.describe(fn)[:160], how="delegates(%s(a, b))" % str(t[1]).split("::")[-1])
